@@ -4,6 +4,8 @@
 package pool
 
 import (
+	"strings"
+
 	"verif/sim/tape"
 	"verifshim/simhook"
 )
@@ -121,4 +123,22 @@ func (c *Ctl) Counts(m map[string]int) {
 	m["pool.hit-random"] += c.HitRand
 	m["pool.drop"] += c.Drop
 	m["pool.purge"] += c.Purge
+}
+
+// DupSites returns the sites of the pools that currently hold the same object
+// more than once (a double Put: two later users would share it), and empties
+// those pools.
+func DupSites() []string {
+	var out []string
+	for _, pi := range simhook.Pools() {
+		if pi.Dup != nil && pi.Dup() {
+			s := pi.Site
+			if i := strings.LastIndex(s, " "); i >= 0 {
+				s = s[i+1:]
+			}
+			out = append(out, s)
+			pi.Purge()
+		}
+	}
+	return out
 }
